@@ -30,7 +30,7 @@ CLAIMED = {
  "C16": ("7/C16", "the five DefaultFormatters: symbolic prefix bytes (all 256 values) of length 0..3 (thorough 8; uu also 9 and 13) with spare capacity 0, 1, exact-fit, 64: prefix kept, suffix equals the nil-buffer output, caller's backing array untouched."),
  "C17": ("7/C17", "symbolic receiver pre-state (any field values, which subsumes values decoded by earlier calls) and every byte string up to the per-type bound (uu 30..46, date 0..11, roman 0..7, sem 0..7, size text 0..5, date binary 0..9, Scan over five dynamic types): failed UnmarshalText/UnmarshalBinary/Scan leave the receiver bit-identical, input bytes unchanged, string and []byte instantiations agree on value and on the fields the error message is built from, parsed values do not alias the input buffer."),
  "C18": ("7/C18", "no panic (every runtime-panic site and explicit panic is a verification condition) for every byte string up to the per-package bound incl. non-ASCII and invalid UTF-8, under a fully symbolic rule word and MaxInputLength >= 0, through every text entry point of date, roman, sem, size (text rules) and uu, the comparator and Ver.Valid on arbitrary field strings up to 3+3 bytes (thorough 4+4); limit contract with symbolic MaxInputLength at lengths 1..n, default-1, default, default+1 and 10x default (long inputs with concrete valid filler). size with JSON rules is covered on templates only (C12); memory consumption is not modelled."),
- "C19": ("7/C19", "all 2^126 pairs of 63-bit draws: version 4 / variant 1; each single one of the 122 free bits can be 0 and can be 1 (a required witness per bit: unsat is a violation; thorough: adjacent pairs take all four values); lock discipline: the recorded lock/unlock/generator-use/package-variable events of RandomID, two threads, every interleaving: no two conflicting accesses unordered by happens-before (a racy schedule is confirmed with go test -race before it is reported). Uniqueness structurally: a feasible path drawing the ID from a generator created during the call and seeded only by the clock is a violation (confirmed by a native duplicate hunt)."),
+ "C19": ("7/C19", "all 2^126 pairs of 63-bit draws: version 4 / variant 1; each single one of the 122 free bits can be 0 and can be 1 (a required witness per bit: unsat is a violation); the ID is a GF(2)-affine map of the 126 draw bits with full rank on the 122 free positions, so every combination of the free bits occurs, each for exactly 16 draws (thorough also: adjacent pairs take all four values); lock discipline: the recorded lock/unlock/generator-use/package-variable events of RandomID, two threads, every interleaving: no two conflicting accesses unordered by happens-before (a racy schedule is confirmed with go test -race before it is reported). Uniqueness structurally: a feasible path drawing the ID from a generator created during the call and seeded only by the clock is a violation (confirmed by a native duplicate hunt)."),
  "C20": ("7/C20", "the six helpers (Marshal/Unmarshal x Text/Binary/JSON) on scripted marshaler/unmarshaler types (value and pointer receivers): one case with every combination of behaviour (right data, other data, error, error with data, panic, nil result for an expected empty text) x error predicate (none, AnyError, Error(matching), Error(other), ErrorHasPrefix, ErrorHasSuffix, ErrorMatch matching / valid non-matching / invalid pattern) x constraint (none, OnlyMarshal, OnlyUnmarshal) x before/after hooks (nil, pass, fail, panic), symbolic data bytes: a failure is recorded iff an independent per-case oracle says the case is not satisfied, no panic escapes; a type lacking the interface gives one failure and FailNow; in three-case lists through all six helpers, with every combination of direction constraints on the first two cases (a list may start with a case of the other direction), every failing applicable case is reported exactly once, other-direction cases are ignored, and a missing interface is still reported. testify's assertions are contract stubs (documented result; Errorf exactly on false). One recorded finding (known_findings.json): a valid non-matching ErrorMatch pattern is not reported; pinned by the repo's own Test_ErrorMatch_Fail, so not repaired."),
 }
 NA_REASON = "check not built yet (framework under construction; see DESIGN.md section 10)"
